@@ -29,7 +29,8 @@ Inductive op :=
 | SetMaxSize (m : option N)
 | SetMaxAge (a2 : option N)
 | Evict
-| Restart.                      (* finish() + QuotaManager::new on the same database: the limits are not persisted *)
+| Restart
+| Tick.                         (* one time unit passes with no activity at all: every recorded access is one unit further in the past *)                      (* finish() + QuotaManager::new on the same database: the limits are not persisted *)
 
 Fixpoint upsert (l : list row) (r : row) : list row :=
   match l with
@@ -43,6 +44,8 @@ Definition set_age (l : list row) (k age : N) : list row :=
 Definition del_row (l : list row) (k : N) : list row := filter (fun x => negb (r_key x =? k)) l.
 Definition del_key (l : list N) (k : N) : list N := filter (fun x => negb (x =? k)) l.
 Definition add_key (l : list N) (k : N) : list N := if existsb (N.eqb k) l then l else l ++ [k].
+
+Definition age_all (l : list row) : list row := map (fun x => mkRow (r_key x) (r_size x) (r_age x + 1)) l.
 
 Definition total (l : list row) : N := fold_right (fun x a => r_size x + a) 0 l.
 
@@ -98,6 +101,7 @@ Definition step (st : state) (o : op) : state :=
   | SetMaxAge a => mkSt (rows st) (disk_in st) (disk_out st) (max_size st) a
   | Evict => evict st
   | Restart => mkSt (rows st) (disk_in st) (disk_out st) None None   (* the settings live in memory only *)
+  | Tick => mkSt (age_all (rows st)) (disk_in st) (disk_out st) (max_size st) (max_age2 st)
   end.
 
 (* the correspondence run observes the state after every Evict / Restart *)
